@@ -289,6 +289,11 @@ def arrays_in(v, depth=0, out=None):
     return out
 
 
+# unseeded draws: a second call legitimately differs; DRFNet(): the stand-in backend numbers its fits, so two
+# constructions differ in that bookkeeping (a property of the stub, not of the library)
+NONDETERMINISTIC = {"noise", "NormalDistribution.sample", "DRFNet()"}
+
+
 def check_call(name, f, args, kwargs=None, model=None, allow_alias_args=()):
     """Calls f(*args); checks (1) args (and the model) byte-identical afterwards, (2) no array reachable from the
     result shares memory with an argument or model attribute, (3) writing into the result changes nothing."""
@@ -302,6 +307,7 @@ def check_call(name, f, args, kwargs=None, model=None, allow_alias_args=()):
     if model is not None and H.digest_value(vars(model)) != mbefore:
         fails.append(("model-modified:" + name, "%s modified the model it was called on" % name))
     if r[0] == "ok":
+        d1 = rdigest(r[1])
         res_arrays = arrays_in(r[1])
         owners = [a for k, a in enumerate(arrays_in([args, kwargs])) if k not in allow_alias_args]
         if model is not None:
@@ -317,6 +323,11 @@ def check_call(name, f, args, kwargs=None, model=None, allow_alias_args=()):
                         pass
             if H.digest_value([args, kwargs]) != before or (model is not None and H.digest_value(vars(model)) != mbefore):
                 fails.append(("write-through:" + name, "writing into the result of %s changed an argument / the model" % name))
+            elif name not in NONDETERMINISTIC:
+                # the same call again, after the first result was overwritten: results must not live in shared / cached storage
+                r2 = _g.call(f, *args, **kwargs)
+                if r2[0] != "ok" or rdigest(r2[1]) != d1:
+                    fails.append(("result-depends-on-earlier-result:" + name, "%s called again with the same arguments after its first result was overwritten returns something else (args %s)" % (name, _short(args))))
     return fails
 
 
@@ -426,8 +437,10 @@ def run_registry_misc(acc):
     for fn in (gen.dag_avg_deg, gen.dag_full):
         do(fn.__name__, fn, [4, 2] if fn is gen.dag_avg_deg else [4], kwargs={"random_state": 1, "return_ordering": True})
     do("intervention_targets", gen.intervention_targets, [5, 2, (1, 2)], kwargs={"random_state": 1})
-    for f in (noise.normal(1, 2), noise.uniform(0, 2), noise.laplace(0, 1), noise.zero()):
+    for f in (noise.normal(1, 2), noise.uniform(0, 2), noise.laplace(0, 1)):
         do("noise", f, [3])
+    do("noise.zero", noise.zero(), [3])
+    do("noise.zero", noise.zero(), [3])
     do("functions.null", functions.null, [np.ones((3, 2))])
     # class methods on models built from caller arrays; constructor inputs count as arguments
     mean, cov = np.array([1.0, 2.0, 3.0]), np.array([[2.0, 1, 0], [1, 2, 1], [0, 1, 2]])
